@@ -1,5 +1,19 @@
 """C06 — the dictionary compiler is total and never emits an invalid dictionary (DESIGN §4 C06)."""
+import os
+import re
 from runner import Harness
+
+HERE = os.path.dirname(os.path.abspath(__file__))
+
+
+def generate(ctx):
+    """format limits: the length-prefix and array-limit harnesses of C05 (same text, module verif_c06_limits)"""
+    t = open(os.path.join(HERE, "..", "C05", "dic__build__primitives.rs")).read()
+    keep = []
+    for m in re.finditer(r"^[ \t]*//@H (c05_len_prefix|c05_u32_array_limits)[ \t]*\n.*?^[ \t]*//@END[ \t]*\n", t, flags=re.M | re.S):
+        keep.append(m.group(0).replace("c05_", "c06_limits_"))
+    head = t[:t.index("    //@H c05_len_prefix")].replace("mod verif_c05", "mod verif_c06_limits")
+    return {"dic__build__primitives": head + "\n".join(keep) + "}\n"}
 
 
 def params(ctx):
@@ -27,6 +41,13 @@ def harnesses(ctx):
                       assumptions=["references carry dictionary number 0 or 1 (all parse_wordid can produce)", "splits already resolved to references"],
                       stubs=["alloc::fmt::format -> empty string"], timeout_s=900 if ne == 1 else 3000, mem_gb=12 if ne == 1 else 36,
                       outside=["more than %d entries" % ne + " / more than one reference per list (same loop body)"]))
+    hs.append(Harness("c06_limits_len_prefix", "dic__build__primitives", ["Utf16Writer::write_len", "string_length_parser"], "every usize length",
+                      kernel="C06-c strings respect the format limits: a length the writer accepts is written in the form the reader decodes (1 byte below 127, else 2 bytes), > 32767 rejected - "
+                             "so a successfully compiled string field never mis-frames the record",
+                      stubs=["alloc::fmt::format -> empty string"], timeout_s=600, mem_gb=8, rust_mod="verif_c06_limits"))
+    hs.append(Harness("c06_limits_u32_array_limits", "dic__build__primitives", ["write_u32_array"], "0 and 128 items of one arbitrary value",
+                      kernel="C06-c arrays respect the format limits: 128 items rejected before anything is written", stubs=["alloc::fmt::format -> empty string"], timeout_s=900, mem_gb=10,
+                      rust_mod="verif_c06_limits"))
     return hs
 
 
@@ -35,10 +56,10 @@ OUTSIDE = ["CSV / regex-level parsing of arbitrary bytes", "split resolution", "
 EXPLANATION = "Kernel-level: element placement and validation, for all numeric values."
 MANIFEST = dict(
     design_ref="DESIGN.md §4 C06",
-    technique="bounded model checking (Kani/CBMC/cadical): symbolic i16 matrix coordinates through ConnBuffer::write_elem; symbolic entry ids and references through LexiconReader::validate_entries",
+    technique="bounded model checking (Kani/CBMC/cadical): symbolic i16 matrix coordinates through ConnBuffer::write_elem; symbolic entry ids and references through LexiconReader::validate_entries; every usize length through Utf16Writer::write_len and the reader",
     text=("Kernel-level claim. For every i16 (left,right,cost) on 3x2, 1x1 and 2x3 buffers write_elem never panics, succeeds only for coordinates inside the declared matrix and "
           "then writes exactly that cell (which ConnectionMatrix::cost reads back at the same coordinates); for every combination of ids and references of two entries "
           "validate_entries returning Ok implies every indexed entry's ids lie inside the matrix and every dictionary-form/split/word-structure reference points to an "
-          "existing entry. 'Total for any byte sequence' as a whole is NOT claimed: CSV/regex parsing is outside a SAT solver's reach."),
+          "existing entry; every string length the writer accepts is written in the form the reader decodes (1 byte below 127 units, else 2 bytes; above 32,767 rejected) and arrays above 127 items are rejected before anything is written. 'Total for any byte sequence' as a whole is NOT claimed: CSV/regex parsing is outside a SAT solver's reach."),
     note="fmt::format stubbed on error paths; references restricted to what parse_wordid can produce. Trusted: Kani/CBMC/cadical.",
 )
